@@ -435,9 +435,14 @@ def res_cases(draw):
     for i in range(draw(st.integers(1, 4))):
         o = dict(kind=draw(st.sampled_from(OBS_KINDS)), times=(times() if draw(st.booleans()) else None), sfx=f"o{i}")
         obs.append(o)
-    return dict(basis=basis, n=n, pulses=pulses, noise=noise, default=default, default_times=times(),
-                obs=obs, seed=draw(st.integers(0, 2**31 - 1)), sampling_rate=draw(st.sampled_from([1.0, 1.0, 0.5])),
-                runs=draw(st.sampled_from([3, 6])))
+    out = dict(basis=basis, n=n, pulses=pulses, noise=noise, default=default, default_times=times(),
+               obs=obs, seed=draw(st.integers(0, 2**31 - 1)), sampling_rate=draw(st.sampled_from([1.0, 1.0, 0.5])),
+               runs=draw(st.sampled_from([3, 6])))
+    if basis == "ground-rydberg" and draw(st.integers(0, 2)) == 0:
+        # output modulation: the emulated duration includes the fall time of the last pulse and
+        # relative times refer to it
+        out["mod_bw"] = draw(st.sampled_from([4, 10]))
+    return out
 
 
 def build_res_seq(case):
@@ -446,7 +451,14 @@ def build_res_seq(case):
     from pulser.waveforms import RampWaveform
 
     n = case["n"]
-    seq = Sequence(Register({f"q{i}": (7.0 * i, 0.0) for i in range(n)}), MockDevice)
+    dev = MockDevice
+    if case.get("mod_bw"):
+        from pulser.channels import Rydberg
+        from pulser.devices import VirtualDevice
+
+        dev = VirtualDevice(name="Mod", dimensions=2, rydberg_level=60, channel_objects=(
+            Rydberg.Global(None, None, mod_bandwidth=case["mod_bw"]),))
+    seq = Sequence(Register({f"q{i}": (7.0 * i, 0.0) for i in range(n)}), dev)
     b = case["basis"]
     if b == "XY":
         chans = ["mw_global"]
@@ -476,9 +488,12 @@ def check_results(case, ctx: Ctx):
 
     C = "C20.results"
     seq = build_res_seq(case)
-    T = seq.get_duration()
+    mkw = dict(with_modulation=True) if case.get("mod_bw") else {}
+    T = seq.get_duration(include_fall_time=bool(mkw))
+    if mkw:
+        ctx.label("with_modulation")
     sr = case["sampling_rate"] if case["sampling_rate"] * T >= 8 else 1.0
-    clean = QutipEmulator.from_sequence(seq, sampling_rate=sr)
+    clean = QutipEmulator.from_sequence(seq, sampling_rate=sr, **mkw)
     eig = list(clean.samples_obj.eigenbasis)
     dim = len(eig)
     n = case["n"]
@@ -558,7 +573,7 @@ def check_results(case, ctx: Ctx):
     st_obs = StateResult(evaluation_times=sorted(union) or None, tag_suffix="all")
     try:
         cfg = QutipConfig(observables=[st_obs] + [ob for _, ob in obs_objs], noise_model=nm,
-                          sampling_rate=sr, **ckw)
+                          sampling_rate=sr, **ckw, **mkw)
     except Exception as e:  # noqa: BLE001 - a refused configuration is not a result
         ctx.label("config_refused:" + type(e).__name__)
         return
@@ -580,6 +595,9 @@ def check_results(case, ctx: Ctx):
                  f"QutipBackendV2.run() failed (noise {noise}, eigenstates {eig}): {type(e).__name__}: {str(e)[:200]}",
                  cont=True)
         return
+    if int(res.total_duration) != int(T):
+        ctx.fail(C, "total_duration", f"Results.total_duration {res.total_duration} != emulated duration {T} ns "
+                                      f"(relative evaluation times refer to it)", cont=True)
     tol = 0.5 / T + 1e-12
     grid = None
     if case["default"] == "Full":
